@@ -157,6 +157,7 @@ func fieldAttrs(fd protoreflect.FieldDescriptor) map[string]any {
 	if ev := fd.DefaultEnumValue(); ev != nil {
 		out["defenum"] = string(ev.FullName())
 	}
+	common(fd, out)
 	return out
 }
 
@@ -177,7 +178,7 @@ func namesOf(n protoreflect.Names) []string {
 	return out
 }
 
-func msgAttrs(md protoreflect.MessageDescriptor) map[string]any {
+func msgAttrs(md protoreflect.MessageDescriptor, p probes) map[string]any {
 	req := []int64{}
 	rn := md.RequiredNumbers()
 	for i := 0; i < rn.Len(); i++ {
@@ -192,7 +193,7 @@ func msgAttrs(md protoreflect.MessageDescriptor) map[string]any {
 	for i := 0; i < md.Oneofs().Len(); i++ {
 		oneofs = append(oneofs, string(md.Oneofs().Get(i).Name()))
 	}
-	return map[string]any{
+	out := map[string]any{
 		"full":      string(md.FullName()),
 		"index":     int64(md.Index()),
 		"mapentry":  md.IsMapEntry(),
@@ -206,9 +207,11 @@ func msgAttrs(md protoreflect.MessageDescriptor) map[string]any {
 		"nenums":    int64(md.Enums().Len()),
 		"nexts":     int64(md.Extensions().Len()),
 	}
+	msgLookups(md, p, out)
+	return out
 }
 
-func enumAttrs(ed protoreflect.EnumDescriptor) map[string]any {
+func enumAttrs(ed protoreflect.EnumDescriptor, p probes) map[string]any {
 	vals := []any{}
 	for i := 0; i < ed.Values().Len(); i++ {
 		v := ed.Values().Get(i)
@@ -219,7 +222,7 @@ func enumAttrs(ed protoreflect.EnumDescriptor) map[string]any {
 		x := ed.ReservedRanges().Get(i)
 		rr = append(rr, []int64{int64(x[0]), int64(x[1])})
 	}
-	return map[string]any{
+	out := map[string]any{
 		"full":      string(ed.FullName()),
 		"index":     int64(ed.Index()),
 		"closed":    ed.IsClosed(),
@@ -227,37 +230,43 @@ func enumAttrs(ed protoreflect.EnumDescriptor) map[string]any {
 		"rsvd":      rr,
 		"rsvdnames": namesOf(ed.ReservedNames()),
 	}
+	enumLookups(ed, p, out)
+	return out
 }
 
-func oneofAttrs(od protoreflect.OneofDescriptor) map[string]any {
+func oneofAttrs(od protoreflect.OneofDescriptor, p probes) map[string]any {
 	fields := []string{}
 	for i := 0; i < od.Fields().Len(); i++ {
 		fields = append(fields, string(od.Fields().Get(i).Name()))
 	}
-	return map[string]any{
+	out := map[string]any{
 		"full":      string(od.FullName()),
 		"index":     int64(od.Index()),
 		"synthetic": od.IsSynthetic(),
 		"fields":    fields,
 	}
+	oneofLookups(od, p, out)
+	return out
 }
 
-func svcAttrs(sd protoreflect.ServiceDescriptor) map[string]any {
+func svcAttrs(sd protoreflect.ServiceDescriptor, p probes) map[string]any {
 	ms := []any{}
 	for i := 0; i < sd.Methods().Len(); i++ {
 		m := sd.Methods().Get(i)
 		ms = append(ms, []any{string(m.FullName()), fullNameOf(m.Input()), fullNameOf(m.Output()), m.IsStreamingClient(), m.IsStreamingServer()})
 	}
-	return map[string]any{"full": string(sd.FullName()), "index": int64(sd.Index()), "methods": ms}
+	out := map[string]any{"full": string(sd.FullName()), "index": int64(sd.Index()), "methods": ms}
+	svcLookups(sd, p, out)
+	return out
 }
 
-func fileAttrs(fd protoreflect.FileDescriptor) map[string]any {
+func fileAttrs(fd protoreflect.FileDescriptor, p probes) map[string]any {
 	imps := []any{}
 	for i := 0; i < fd.Imports().Len(); i++ {
 		im := fd.Imports().Get(i)
 		imps = append(imps, []any{im.Path(), im.IsPublic})
 	}
-	return map[string]any{
+	out := map[string]any{
 		"path":    fd.Path(),
 		"package": string(fd.Package()),
 		"syntax":  int64(fd.Syntax()),
@@ -267,6 +276,8 @@ func fileAttrs(fd protoreflect.FileDescriptor) map[string]any {
 		"nexts":   int64(fd.Extensions().Len()),
 		"nsvcs":   int64(fd.Services().Len()),
 	}
+	fileLookups(fd, p, out)
+	return out
 }
 
 // resolved returns what protoutil.ResolveFeature says for the six core features of an element.
@@ -429,8 +440,10 @@ func (w *walker) enum(prefix string, edp *descriptorpb.EnumDescriptorProto, anc 
 	e := map[string]any{"k": "enum", "name": name,
 		"in": map[string]any{"syn": w.syn, "ed": w.ed, "chain": chainOf(fsVec(edp.GetOptions().GetFeatures()), anc)}}
 	l, r := w.find(false, name)
+	ep := enumProbes(edp)
+	e["probes"] = ep.nums
 	if le, ok := l.(protoreflect.EnumDescriptor); ok {
-		a := enumAttrs(le)
+		a := enumAttrs(le, ep)
 		a["feat"] = resolved(le)
 		e["lk"] = a
 	} else {
@@ -438,7 +451,7 @@ func (w *walker) enum(prefix string, edp *descriptorpb.EnumDescriptorProto, anc 
 	}
 	if w.rt != nil {
 		if re, ok := r.(protoreflect.EnumDescriptor); ok {
-			e["rt"] = enumAttrs(re)
+			e["rt"] = enumAttrs(re, ep)
 		} else {
 			w.errs = append(w.errs, "runtime has no enum "+name)
 		}
@@ -461,8 +474,10 @@ func (w *walker) message(prefix string, mdp *descriptorpb.DescriptorProto, anc [
 	e := map[string]any{"k": "msg", "name": name,
 		"in": map[string]any{"syn": w.syn, "ed": w.ed, "chain": chainOf(own, anc), "fields": fins, "mapentry": isMapEntry}}
 	l, r := w.find(false, name)
+	mp := msgProbes(mdp)
+	e["probes"] = mp.nums
 	if lm, ok := l.(protoreflect.MessageDescriptor); ok {
-		a := msgAttrs(lm)
+		a := msgAttrs(lm, mp)
 		a["feat"] = resolved(lm)
 		e["lk"] = a
 	} else {
@@ -470,7 +485,7 @@ func (w *walker) message(prefix string, mdp *descriptorpb.DescriptorProto, anc [
 	}
 	if w.rt != nil {
 		if rm, ok := r.(protoreflect.MessageDescriptor); ok {
-			e["rt"] = msgAttrs(rm)
+			e["rt"] = msgAttrs(rm, mp)
 		} else {
 			w.errs = append(w.errs, "runtime has no message "+name)
 		}
@@ -485,7 +500,7 @@ func (w *walker) message(prefix string, mdp *descriptorpb.DescriptorProto, anc [
 			"in": map[string]any{"syn": w.syn, "ed": w.ed, "chain": chainOf(fsVec(o.GetOptions().GetFeatures()), sub)}}
 		lo, ro := w.find(false, on)
 		if x, ok := lo.(protoreflect.OneofDescriptor); ok {
-			a := oneofAttrs(x)
+			a := oneofAttrs(x, mp)
 			a["feat"] = resolved(x)
 			oe["lk"] = a
 		} else {
@@ -493,7 +508,7 @@ func (w *walker) message(prefix string, mdp *descriptorpb.DescriptorProto, anc [
 		}
 		if w.rt != nil {
 			if x, ok := ro.(protoreflect.OneofDescriptor); ok {
-				oe["rt"] = oneofAttrs(x)
+				oe["rt"] = oneofAttrs(x, mp)
 			} else {
 				w.errs = append(w.errs, "runtime has no oneof "+on)
 			}
@@ -745,15 +760,16 @@ func viewsCase(in map[string]any) map[string]any {
 	}
 	svcs := []any{}
 	for i := 0; i < lf.Services().Len(); i++ {
-		e := map[string]any{"lk": svcAttrs(lf.Services().Get(i))}
+		sp := fileProbes(fdp)
+		e := map[string]any{"lk": svcAttrs(lf.Services().Get(i), sp)}
 		if rt != nil && i < rt.Services().Len() {
-			e["rt"] = svcAttrs(rt.Services().Get(i))
+			e["rt"] = svcAttrs(rt.Services().Get(i), sp)
 		}
 		svcs = append(svcs, e)
 	}
-	fe := map[string]any{"lk": fileAttrs(lf), "chain": []any{fileFs}, "feat": resolved(lf), "ed": ed}
+	fe := map[string]any{"lk": fileAttrs(lf, fileProbes(fdp)), "chain": []any{fileFs}, "feat": resolved(lf), "ed": ed}
 	if rt != nil {
-		fe["rt"] = fileAttrs(rt)
+		fe["rt"] = fileAttrs(rt, fileProbes(fdp))
 	}
 	out["file"] = fe
 	out["svcs"] = svcs
